@@ -645,6 +645,10 @@ class RestAPI(object):
                     )
                     return aws_error("StateMachineDoesNotExist"), 400
 
+                # Collect the changes and only apply them once the whole request
+                # has been validated, so a rejected update leaves the store as it was.
+                updates = {}
+
                 role_arn = params.get("roleArn")
                 if role_arn:
                     if not valid_role_arn(role_arn):
@@ -654,7 +658,7 @@ class RestAPI(object):
                             )
                         )
                         return aws_error("InvalidArn"), 400
-                    state_machine["roleArn"] = role_arn
+                    updates["roleArn"] = role_arn
 
                 definition = params.get("definition", "")
                 if definition:
@@ -699,7 +703,7 @@ class RestAPI(object):
                             if self.validate_asl:
                                 return aws_error("InvalidDefinition", message), 400
 
-                    state_machine["definition"] = definition
+                    updates["definition"] = definition
 
                 if not role_arn and not definition:
                     self.logger.warning(
@@ -708,7 +712,7 @@ class RestAPI(object):
                     return aws_error("MissingRequiredParameter"), 400
 
                 update_date = time.time()
-                state_machine["updateDate"] = update_date
+                updates["updateDate"] = update_date
 
                 """
                 Handle the configuration describing where execution history
@@ -747,8 +751,9 @@ class RestAPI(object):
                             )
                             return aws_error("InvalidLoggingConfiguration"), 400
 
-                    state_machine["loggingConfiguration"] = logging_configuration
+                    updates["loggingConfiguration"] = logging_configuration
 
+                state_machine.update(updates)
                 self.asl_store[state_machine_arn] = state_machine
 
                 resp = {"updateDate": update_date}
